@@ -522,7 +522,9 @@ pub fn zoo() -> Vec<Entry> {
 			DataFixed, TransparentArr, TransparentZst, Named, Tup, SingleSkipRest, Generic<u8>, Generic<String>, TransparentBox,
 			Data, TupEnum, Nested, Tree, Linked, MapTree, BoxTree, CWrap, UsesCWrap, Compact<CWrap>,
 			Vec<Named>, Vec<Data>, Option<Simple>, Vec<AllSkip>, Box<TransparentArr>, [TransparentZst; 2], Vec<Tree>,
-			BTreeMap<Simple, Indexed>, (Simple, WithCompact, Discr), Box<TransparentBox>, Vec<UnitS>);
+			BTreeMap<Simple, Indexed>, (Simple, WithCompact, Discr), Box<TransparentBox>, Vec<UnitS>,
+			TransparentCompact, Box<TransparentCompact>, [TransparentCompact; 3], Rc<TransparentEncodedAs>, [TransparentEncodedAs; 2],
+			Box<SingleCompact>, [WithCompact; 2], Box<DataFixed>, [Data; 2], Arc<Nested>, Box<TupEnum>);
 	}
 
 	#[cfg(feature = "max-encoded-len")]
@@ -543,6 +545,7 @@ pub fn zoo() -> Vec<Entry> {
 			use crate::derived::*;
 			mark!(v; mel: UnitS, WithSkip, WithCompact, WithEncodedAs, SingleCompact, SingleCompact16, AllSkip, Simple, Indexed,
 				Discr, DataFixed, TransparentArr, TransparentZst, CWrap, Option<Simple>, Box<TransparentArr>, [TransparentZst; 2],
+				TransparentCompact, Box<TransparentCompact>, [TransparentCompact; 3], [TransparentEncodedAs; 2], Compact<CWrap>,
 				(Simple, WithCompact, Discr));
 		}
 	}
